@@ -335,6 +335,15 @@ let check (case : Sexp.t) : unit =
            let ok1 = cache_ok ~id ~tag:"cache" a in
            let ok2 = (match sa2 with Atom "panic" -> true | s2 -> cache_ok ~id ~tag:"cache-second-run" (itree_of s2)) in
            if ok1 && ok2 then result id "OK" "cache" ""
+         | "c06" when gen = "distilled" ->
+           (* a tree the builder has just returned: it eliminated after every activation, so one more elimination
+              finds nothing to do -- same tree, every node answered from the cache *)
+           let same = (Sexp.to_string sa = Sexp.to_string sb) in
+           let lps = (match counter with List (Atom "counter" :: l) -> int_of (List.nth l 5) | _ -> -1) in
+           if same && lps = 0 then result id "OK" "distilled" ""
+           else result id "VIOL" "distilled-not-pruned"
+               (Printf.sprintf "a further elimination of a freshly distilled tree: tree identical=%b, LPs solved=%d (nodes before %d, after %d)"
+                  same lps (List.length b.nodes) (List.length a.nodes))
          | "c06" ->
            if not (fullb pb) then (bump "not_total_skipped"; result id "OK" "not-total" "")
            else
@@ -447,6 +456,9 @@ let check (case : Sexp.t) : unit =
      | Atom "panic" -> result id "VIOL" "mirror-panic" "mirror_points panicked"
      | List [Atom "some"; m; _] ->
        bump "mirror_some"; bump "nontrivial";
+       if (try ignore (mat_of m); false with Nonfinite -> true) then
+         result id "VIOL" "mirror-member" "a returned point has a NaN / infinite coordinate: it lies in no polytope"
+       else
        let pts = mat_of m in
        let bad = List.filter (fun x -> not (in_rowsb rows x)) pts in
        if bad = [] then result id "OK" "mirror" ""
